@@ -74,10 +74,12 @@ structure Cfg where
 
 inductive Ev
   | setCall (t : Tid) (h : Hash) (c : Conf) (v : Val) (cost : Int) (ttl : Int)
+  | setExp (t : Tid) (v : Val) (exp : Time)          -- ghost: the expiration computed from the clock read
+  | drop (t : Tid) (v : Val)                          -- ghost: new item refused because the buffer was full
   | setRet (t : Tid) (v : Val) (ok : Bool)
-  | getCall (t : Tid) (h : Hash) (c : Conf)
+  | getCall (t : Tid) (h : Hash) (c : Conf) (now : Time)
   | getRet (t : Tid) (h : Hash) (c : Conf) (res : Option Val)
-  | ttlCall (t : Tid) (h : Hash) (c : Conf)
+  | ttlCall (t : Tid) (h : Hash) (c : Conf) (now : Time)
   | ttlRet (t : Tid) (h : Hash) (c : Conf) (d : Int) (ok : Bool)
   | delCall (t : Tid) (h : Hash) (c : Conf)
   | delRet (t : Tid) (h : Hash)
@@ -87,7 +89,7 @@ inductive Ev
   | clearRet (t : Tid)
   | closeCall (t : Tid)
   | closeRet (t : Tid)
-  | iterCall (t : Tid)
+  | iterCall (t : Tid) (now : Time)
   | iterRet (t : Tid) (seen : List Val)
   | maxRet (t : Tid) (m : Int)
   | remRet (t : Tid) (m : Int)
@@ -489,9 +491,11 @@ def needNone (ch : Choice) (r : Option State) : Option State :=
 -- SetWithTTL ------------------------------------------------------------
 def stSetStart (s : State) (t : Tid) (h : Hash) (c : Conf) (v : Val) (cost : Int) (ttl : Int) : State :=
   if s.closed then logEv (setCl s t .idle) (.setRet t v false)
-  else if ttlNone ttl then setCl s t (.setUpd ⟨.new, h, c, v, cost, Gen.zeroTime⟩)
+  else if ttlNone ttl then
+    logEv (setCl s t (.setUpd ⟨.new, h, c, v, cost, Gen.zeroTime⟩)) (.setExp t v Gen.zeroTime)
   else if ttlNegative ttl then logEv (setCl s t .idle) (.setRet t v false)
-  else setCl s t (.setUpd ⟨.new, h, c, v, cost, ttlExpiration s.clock ttl⟩)
+  else logEv (setCl s t (.setUpd ⟨.new, h, c, v, cost, ttlExpiration s.clock ttl⟩))
+         (.setExp t v (ttlExpiration s.clock ttl))
 
 def stSetUpd (cfg : Cfg) (s : State) (t : Tid) (i : Item) : State :=
   let r := storeUpdate cfg s.store s.em i
@@ -511,8 +515,8 @@ def stSetRetTrue (s : State) (t : Tid) (i : Item) : State :=
 
 def stSetRetDrop (cfg : Cfg) (s : State) (t : Tid) (i : Item) : State :=
   if dropIsUpdate i.flag.code then logEv (setCl s t .idle) (.setRet t i.value true)
-  else logEv (setCl (metAdd cfg s fun m => { m with dropSets := m.dropSets + 1 }) t .idle)
-              (.setRet t i.value false)
+  else logEv (logEv (setCl (metAdd cfg s fun m => { m with dropSets := m.dropSets + 1 }) t .idle)
+              (.drop t i.value)) (.setRet t i.value false)
 
 -- Del -------------------------------------------------------------------
 def stDelStart (s : State) (t : Tid) (h : Hash) (c : Conf) : State :=
@@ -701,13 +705,13 @@ def spawnStep (s : State) (t : Tid) (c : Call) : Option State :=
   | .idle =>
     match c with
     | .set h cf v cost ttl => some (logEv (setCl s t (.setStart h cf v cost ttl)) (.setCall t h cf v cost ttl))
-    | .get h cf => some (logEv (setCl s t (.getStart h cf)) (.getCall t h cf))
-    | .getTTL h cf => some (logEv (setCl s t (.ttlRead h cf)) (.ttlCall t h cf))
+    | .get h cf => some (logEv (setCl s t (.getStart h cf)) (.getCall t h cf s.clock))
+    | .getTTL h cf => some (logEv (setCl s t (.ttlRead h cf)) (.ttlCall t h cf s.clock))
     | .del h cf => some (logEv (setCl s t (.delStart h cf)) (.delCall t h cf))
     | .wait => some (logEv (setCl s t .waitStart) (.waitCall t))
     | .clear => some (logEv (setCl s t (.clrStart false)) (.clearCall t))
     | .close => some (logEv (setCl s t (.clrStart true)) (.closeCall t))
-    | .iter n => some (logEv (setCl s t (.iterStart n)) (.iterCall t))
+    | .iter n => some (logEv (setCl s t (.iterStart n)) (.iterCall t s.clock))
     | .updateMaxCost m => some (setCl s t (.updMax m))
     | .maxCost => some (setCl s t .readMax)
     | .remainingCost => some (setCl s t .readRem)
